@@ -219,9 +219,9 @@ func (s *sim) hllPhys(item string, pos int) bool {
 // and leaves the members behind; with the clock BEHIND the log time the same
 // calls see an expired collection as alive (hclear deletes and counts it).
 // The relaxation, per pair of instances:
-// items/replies of that collection from such a command on (applied by one of
-// the two with its local clock and the command's log time on different sides
-// of an expiry instant of the key) are not compared.
+// items/replies of that collection from such a command on (applied by the two
+// instances with their local clocks on different sides of an expiry instant of
+// the key) are not compared.
 
 type clockFinding struct {
 	key    string
@@ -234,10 +234,15 @@ type clockFinding struct {
 const keyHClear = "hclear-local-clock"
 const keyZFix = "zfixkey-local-clock"
 
+// hclear-local-clock was found by this engine and, independently, repaired in
+// the repository (commit 0a165e4 "HCLEAR decides on the log timestamp"): its
+// relaxation is switched off, a recurrence is an unknown violation again
+// (mutant m15 re-introduces the defect).
 var clockFindings = []clockFinding{
-	{keyHClear, clHash, []string{"hclear", "hmclear"}, "hexpire", []byte{22, 23}},
 	{keyZFix, clZSet, []string{"zfixkey"}, "zexpire", []byte{26, 27, 28}},
 }
+
+var _ = clockFinding{keyHClear, clHash, []string{"hclear", "hmclear"}, "hexpire", []byte{22, 23}}
 
 // at returns the index of the first such command on key that one of the two
 // instances applied under the finding's condition (-1: none).
@@ -272,15 +277,24 @@ func (f *clockFinding) at(s *sim, a, b *inst, key string) int {
 		if !is {
 			continue
 		}
+		// the decision is taken on the replica's clock alone: the two instances
+		// part ways iff one of them saw the key expired and the other did not
+		times := func(in *inst) []int64 {
+			var ts []int64
+			if in.applyAt[r.idx] != 0 {
+				ts = append(ts, in.applyAt[r.idx]/sec)
+			}
+			if in.lastApplyAt[r.idx] != 0 && in.lastApplyAt[r.idx] != in.applyAt[r.idx] {
+				ts = append(ts, in.lastApplyAt[r.idx]/sec)
+			}
+			return ts
+		}
 		for _, e := range exps {
-			// the command's log time and the replica's clock disagree about "expired"
-			expiredLog := e <= r.ts/sec
-			for _, in := range []*inst{a, b} {
-				if in.lastApplyAt[r.idx] != 0 && (in.lastApplyAt[r.idx]/sec >= e) != expiredLog {
-					return r.idx
-				}
-				if in.applyAt[r.idx] != 0 && (in.applyAt[r.idx]/sec >= e) != expiredLog {
-					return r.idx
+			for _, ta := range times(a) {
+				for _, tb := range times(b) {
+					if (ta >= e) != (tb >= e) {
+						return r.idx
+					}
 				}
 			}
 		}
@@ -374,6 +388,10 @@ func (f *clockFinding) physItem(s *sim, a, b *inst, item string, pos int) bool {
 // instances, and items of the keys they wrote, are not compared.
 
 const keyAbort = "batch-abort-on-error"
+
+// repaired in /repo (kvbatchOperator.AbortBatchForError re-applies the commands
+// batched so far): nothing is marked as dropped any more
+const abortRepaired = true
 
 func abortTainted(a, b *inst, pred func(class, key string, at int) bool) bool {
 	for _, in := range []*inst{a, b} {
@@ -570,7 +588,7 @@ func (s *sim) compareAt(pos int) {
 	logical := make([]dump, len(live))
 	phys := make([]dump, len(live))
 	for i, in := range live {
-		logical[i] = logicalDump(in.st, s.ntable)
+		logical[i] = logicalDump(in.st, s.ntable, s.firstPfadd)
 		phys[i] = physicalDump(in.st)
 		s.lg("dump", "%d pos=%d at=%d items=%d phys=%d h=%x", in.idx, pos, now-bubbleEpoch, len(logical[i]), len(phys[i]), s.hashDump(logical[i]))
 		if traceOn {
@@ -612,7 +630,8 @@ func (s *sim) compareAt(pos int) {
 				if m := d[k]; len(m) > 0 {
 					if k == keyHLL {
 						// no item list: which items differ depends on the run-to-run random bytes of a written-back sketch
-						s.found("data-differs", k, "%s differ in what the KV/bitmap commands see under keys written by PFADD", where)
+						// (nor the pair: two written-back sketches differ or not by chance)
+						s.found("data-differs", k, "instances that applied the same log prefix differ in what the KV/bitmap commands see under keys written by PFADD")
 						continue
 					}
 					s.found("data-differs", k, "%s differ: %s", where, strings.Join(m, "; "))
@@ -794,7 +813,7 @@ func (s *sim) compareReplies() {
 				_, per := s.attribution(a, b, i+1)
 				key := per[i]
 				if key == keyHLL {
-					s.found("reply-differs", key, "request %d (%s, ts=%d) answered differently on instance %d and on instance %d", i, r.String(), r.ts, a.idx, b.idx)
+					s.found("reply-differs", key, "a request on a key written by PFADD was answered differently by two instances")
 					continue
 				}
 				s.found("reply-differs", key, "request %d (%s, ts=%d) answered %s on instance %d and %s on instance %d", i, r.String(), r.ts, clip(ra), a.idx, clip(rb), b.idx)
